@@ -56,6 +56,12 @@ def scenario(rng, findings=False):
         steps.append({"op": "call", "i": rng.choice([1, 2]), "api": "copy", "j": 3,
                       "how": rng.choice(["deepcopy", "pickle"])})
         sends([1, 2, 3], rng.randint(2, 6))
+    # events bound onto the model (bind_events_to / MachineMixin): after a copy, the clone's model drives the CLONE
+    if rng.random() < 0.4:
+        new["bind_model"] = True
+        for st in steps:
+            if st.get("api") in ("send", "event") and st.get("ev") in d["evlist"] and rng.random() < 0.6:
+                st["api"] = "mixin_bound"
     # user data on the machine object, set before and between the copies: the clone carries what the original had
     d["shadow_attr"] = True
     for _ in range(rng.randint(0, 2)):
@@ -98,7 +104,7 @@ def featurize(scn, res, v):
     if async_any and not async_on_machine_or_model:
         listener_only_async = True
     nxt = lines[k] if k < len(lines) else {}
-    return {"listener_kind": scn.get("listener_kind", "attr"), "listeners": len([p for p in ctor_provs if p not in ("sm", "model")]),
+    return {"events_bound_to_model": bool(scn["steps"][0].get("bind_model")), "listener_kind": scn.get("listener_kind", "attr"), "listeners": len([p for p in ctor_provs if p not in ("sm", "model")]),
             "copied_before_activation": copied_before_activation, "async_only_on_listeners": listener_only_async,
             "written_before_activation": written_before_activation,
             "on_clone": nxt.get("i", 1) != 1}
